@@ -1,4 +1,3 @@
-pub mod exception {
 use vstd::prelude::*;
 use vstd::std_specs::convert::FromSpecImpl;
 
@@ -50,4 +49,3 @@ impl FromSpecImpl<ExceptionCode> for u8 {
 impl From<ExceptionCode> for u8 {
 //@fn rodbus/src/exception.rs | From<ExceptionCode> for u8::from | tags=C01,C04
 }
-} // mod exception
